@@ -164,6 +164,22 @@ META["C12"] = {
     "level_note": "trusts the race detector and the RaceDisable/RaceEnable bracketing of the simulator's gates (reports entirely inside the simulator are treated as harness trouble, exit 2)",
 }
 
+META["C20"] = {
+    "deadlock_is_violation": True,
+    "stall_s": 40,
+    "budget": {"quick": 30, "thorough": 600},
+    "rule": "one run = one of four sub-checks drawn from the seed: (totality, 50%) a machine brought into one of the phases fresh / active / errored / after SetSchema / mid-queue (another goroutine's transition parked in a handler) / disposed, then 3..12 reflection-enumerated methods of *Machine called with arguments from the full domain (existing states, nil/live/canceled context, nil event, nil args, empty variadics), each in a goroutine of its own with a 2-minute fake-time limit; (copies) a getter documented as a copy is overwritten by the caller and re-read; (algebra) S/Time/ParseStates helpers against a set-theoretic reference; (helpers) AddSync/RemoveSync/Ask*/Cant* on idle and busy machines compared with the tracer's record of what happened; non-trivial = every run; distinct = distinct plans",
+    "components": {"real": MACHINE_REAL + ["pkg/helpers (sync / ask / cant helpers)"], "stub": []},
+    "assumptions": [
+        "the set algebra part is a pure function of its inputs: plain seeded input generation hosted by the simulator, no schedule involved",
+        "a call that is still running after 2 minutes of fake time blocks for ever; mutex self-deadlocks are recognised from the watchdog dump (nothing runnable, a code-under-test frame waits for a sync mutex, no goroutine parked by the simulator inside the code under test)",
+        "the JSON handlers of pkg/integrations are not exercised yet",
+    ],
+    "probes": ["calls-mid-queue", "helper-while-queue-busy"],
+    "level_text": "seeded search over (method, argument shape, lifecycle phase) triples and helper inputs; a recovered panic, a process crash (stack overflow), a call that never returns, a getter that leaks its storage, a set helper that disagrees with set theory or a wait/ask helper that misreports is a violation keyed by method + argument shape",
+    "level_note": "trusts reflection over the method set (additions are covered automatically), testing/synctest for blocking detection",
+}
+
 NOT_YET = "check not built yet in this session (planned, see DESIGN.md section 5)"
 NOT_APPLICABLE = {
     "C19": "no schedule, clock, fault or multi-party behaviour: a static well-formedness scan of schema literals plus an exhaustive breadth-first enumeration of reachable active sets, i.e. bounded model checking, not deterministic simulation (DESIGN.md section 6)",
